@@ -374,6 +374,9 @@ def concurrent_query_vs_analysis(ctx, vh, count):
     for mode, pct in (("uniform", None), ("pct2", 2)):
         r = vh.call(op="sched_scenario", setup=setup, threads=threads, after=after, seed=ctx.seed * 31 + 7, count=count, pct=pct, est=200,
                     timeout=1800)
+        if isinstance(r, dict) and r.get("sched_deadlock"):
+            ctx.violation({"kind": "deadlock-under-scheduler", "where": "c07"}, {"detail": str(r.get("detail", ""))[:1500]})
+            break
         ctx.judged(count)
         ctx.extra["concurrent_query_schedules"] = ctx.extra.get("concurrent_query_schedules", 0) + r["distinct_schedules"]
         for o in r["outcomes"]:
